@@ -405,7 +405,13 @@ def run_classmethods(res, seed):
                         for n in names:
                             src[n] = cols[n]
                         recs = [tuple(float(cols[n][i]) for n in names) for i in range(3)]
-                        forms = {"array(structured)": lambda: vector.array(src), "array(list, dtype=)": lambda: vector.array(recs, dtype=dt)}
+                        forms = {"array(structured)": lambda: vector.array(src), "array(list, dtype=)": lambda: vector.array(recs, dtype=dt),
+                                 # the same with the keywords numpy.array itself takes (documented: "same arguments as numpy.array")
+                                 "array(structured, copy=False)": lambda: vector.array(src, copy=False),
+                                 "array(structured, subok=True)": lambda: vector.array(src, subok=True),
+                                 "array(structured, order='C')": lambda: vector.array(src, order="C"),
+                                 "array(structured, ndmin=1)": lambda: vector.array(src, ndmin=1),
+                                 "array(list, dtype=, ndmin=1)": lambda: vector.array(recs, dtype=dt, ndmin=1)}
                     for fname, f in forms.items():
                         out = f()
                         _, gsys, gcols, gmom, n_ = B.stored_columns(out)
